@@ -489,9 +489,9 @@ func FuzzPipeline(f *testing.F) {
 }
 
 func TestC08(t *testing.T) {
-	V.Rule("unit: sequences of 1-6 inputs (a fresh proxy every 40 sequences) pushed through the synchronous pipeline decode -> learn -> stamp -> register -> consume Route -> pin -> route -> relay (UDP-like and TCP-like arrival, requests and responses): structurally valid generated messages with 1-3 hostile fields (absurd / negative / non-numeric Content-Length, bracket-only / empty / huge Via hosts, hostile Route / From / To / CSeq / start lines, missing mandatory or duplicated singleton headers, every decoded number (Content-Length, CSeq, Expires, Max-Forwards, status, URI / Via / Route ports, rport) at every integer width boundary 2^k-2..2^k+1 for k in 7..64 in both signs - enumerated completely -, thousands of headers / Via entries / parameters, hostile tags, odd Expires), truncations and random byte strings; oracle: no panic, returns within 15 s, TotalAlloc growth per input <= 512*len + 1 MiB (decoding is allowed a large constant factor, not an allocation that ignores how many bytes arrived). lab: the same inputs plus random and oversized bytes against real UDP and TCP listeners; after every batch a sentinel request must still be relayed, a TCP connection that carried undecodable bytes must have been closed, new connections must be served. The native coverage-guided target FuzzPipeline runs in the thorough tier. non-trivial = input that decodes (reaches routing) and contains >= 1 hostile field; distinct by input bytes")
+	V.Rule("unit: sequences of 1-6 inputs (a fresh proxy every 40 sequences) pushed through the synchronous pipeline decode -> learn -> stamp -> register -> consume Route -> pin -> route -> relay (UDP-like and TCP-like arrival, requests and responses): structurally valid generated messages with 1-3 hostile fields (absurd / negative / non-numeric Content-Length, bracket-only / empty / huge Via hosts, hostile Route / From / To / CSeq / start lines, missing mandatory or duplicated singleton headers, every decoded number (Content-Length, CSeq, Expires, Max-Forwards, status, URI / Via / Route ports, rport) at every integer width boundary 2^k-2..2^k+1 for k in 7..64 in both signs - enumerated completely -, thousands of headers / Via entries / parameters, hostile tags, odd Expires), truncations and random byte strings; oracle: no panic, returns within 15 s, TotalAlloc growth per input <= 512*len + 1 MiB (decoding is allowed a large constant factor, not an allocation that ignores how many bytes arrived). lab: the same inputs plus random and oversized bytes against real UDP and TCP listeners; after every batch a sentinel request must still be relayed, and so must 2-6 small ordinary requests sent back to back (each once, intact), a TCP connection that carried undecodable bytes must have been closed, new connections must be served. The native coverage-guided target FuzzPipeline runs in the thorough tier. non-trivial = input that decodes (reaches routing) and contains >= 1 hostile field; distinct by input bytes")
 	V.Assume("egress hygiene: when the product itself computes a non-UDP next hop outside 127/8 for an input, the harness does not let that input reach the relay step (counted as neutralised); UDP sends cannot block")
-	V.Require("bin: process alive and RSS bounded after hostile batch", "decoded with hostile field", "rejected by the decoder", "tcp-like arrival", "udp-like arrival", "response", "lab: sentinel relayed after hostile batch", "lab: garbage TCP connection closed")
+	V.Require("bin: process alive and RSS bounded after hostile batch", "decoded with hostile field", "rejected by the decoder", "tcp-like arrival", "udp-like arrival", "response", "lab: sentinel relayed after hostile batch", "lab: back-to-back ordinary requests all relayed after hostile batch", "lab: garbage TCP connection closed")
 
 	// every number the proxy decodes, at every integer width boundary (complete enumeration)
 	t.Run("numeric-boundaries", func(t *testing.T) {
@@ -722,6 +722,40 @@ func TestC08(t *testing.T) {
 				rt.Fatalf("liveness lost")
 			}
 			V.Class("lab: sentinel relayed after hostile batch")
+			// "keeps serving the traffic that follows" - also when it follows closely:
+			// a handful of small ordinary requests back to back (far below any socket
+			// buffer) must all come out, each once and intact
+			if nb := rapid.IntRange(0, 6).Draw(rt, "ordinary requests back to back after the batch"); nb >= 2 {
+				want := map[string]bool{}
+				var wires [][]byte
+				for i := 0; i < nb; i++ {
+					id := s.nextID("sentinelburst")
+					want[id] = true
+					wires = append(wires, []byte(fmt.Sprintf("OPTIONS sip:svc.test SIP/2.0\r\nVia: SIP/2.0/UDP %s:5060;branch=z9hG4bK%s\r\nFrom: <sip:a@b>;tag=1\r\nTo: <sip:svc@nomatch.example>\r\nCall-ID: %s\r\nCSeq: 1 OPTIONS\r\nSubject: %s\r\nContent-Length: %d\r\n\r\n%s", ua.ip, id, id, id, len(id), id)))
+				}
+				send := func(b []byte) error { return ua.sendUDP(l.Addr, l.UDPPort, b) }
+				s.in.expect(wires...)
+				for _, w := range wires {
+					send(w)
+				}
+				rs, err := s.in.settle(send, nb)
+				got := map[string]int{}
+				for _, r := range labMessages(rs) {
+					cid, _ := r.msg.First(hCallID)
+					sub, _ := r.msg.Ext("Subject")
+					if want[cid] && sub == cid && string(r.msg.Body) == cid && s.isBackendOf(r.ep, 0, r.tcp != nil) {
+						got[cid]++
+					}
+				}
+				ok := err == nil && len(got) == nb
+				for _, n := range got {
+					ok = ok && n == 1
+				}
+				if !ok {
+					failf(rt, "after the batch %v the proxy no longer relays ordinary traffic properly: of %d small requests sent back to back %d came out intact (each expected exactly once): %v\n%s", batch, nb, len(got), err, labDescribe(rs))
+				}
+				V.Class("lab: back-to-back ordinary requests all relayed after hostile batch")
+			}
 			if tcpGarbage {
 				// a connection that carried undecodable bytes is closed by the proxy
 				if !patientUntil(20*time.Second, 200*time.Microsecond, conn.isDead) {
